@@ -244,23 +244,77 @@ theorem cli_skipped_sound (b : Bytes) (m : Nat)
     exact hs
 
 /-- A failing line that `sshKeyType` recognises as `ssh-ed25519` is never skipped:
-    if it is delivered, is neither empty nor a comment and does not parse, the
-    parse fails (at that line or earlier). -/
+    if it is delivered (as line `i + 1`), is neither empty nor a comment and does
+    not parse, the parse fails at that line or earlier. Precisely: the result is
+    the error of the FIRST line `l'` (number `pre.length + 1 ≤ i + 1`; all lines
+    before it are fine) that is neither empty nor a comment and is too long
+    ("line n is too long") or neither parses nor satisfies the skip condition
+    ("malformed recipient at line n") — so never the scanner's error and never
+    "no recipients"; and when every line before line `i + 1` is fine, it is the
+    error of line `i + 1` itself. -/
 theorem cli_ed25519_never_skipped (b : Bytes) (i : Nat) (l : Bytes)
     (hl : (linesOf maxTok limit b)[i]? = some l) (hc : content l = true)
     (hp : p l = none) (hsn : sn l = some sshEd25519) :
-    ∃ e, (cliParseRecipientsFile p sn sv lim maxTok limit b).res = .error e := by
-  cases hres : (cliParseRecipientsFile p sn sv lim maxTok limit b).res with
-  | error e => exact ⟨e, rfl⟩
-  | ok ks =>
-    exfalso
-    obtain ⟨_, hfine, _, _⟩ := (cli_keyfile_exact p sn sv lim maxTok limit b ks).mp hres
-    have := (hfine l (List.mem_of_getElem? hl) hc).2 hp
-    unfold skipCond at this
-    rw [hsn] at this
-    have h1 : (sshEd25519 != sshEd25519) = false := by simp
+    (∃ pre l' post, linesOf maxTok limit b = pre ++ l' :: post ∧ pre.length ≤ i ∧
+      (∀ l'' ∈ pre, content l'' = true → l''.length ≤ lim ∧ (p l'' = none → skipCond sn sv l'' = true)) ∧
+      content l' = true ∧
+      ((l'.length ≤ lim ∧ p l' = none ∧ skipCond sn sv l' = false ∧
+          (cliParseRecipientsFile p sn sv lim maxTok limit b).res = .error (.atLine (pre.length + 1))) ∨
+       (lim < l'.length ∧
+          (cliParseRecipientsFile p sn sv lim maxTok limit b).res = .error (.lineTooLong (pre.length + 1))))) ∧
+    ((∀ l' ∈ (linesOf maxTok limit b).take i, content l' = true →
+        l'.length ≤ lim ∧ (p l' = none → skipCond sn sv l' = true)) →
+      (cliParseRecipientsFile p sn sv lim maxTok limit b).res =
+        .error (if l.length ≤ lim then .atLine (i + 1) else .lineTooLong (i + 1))) := by
+  have hsk : skipCond sn sv l = false := by
+    unfold skipCond
+    rw [hsn]
     have h2 : (sshEd25519 == sshRsa) = false := by decide
-    simp [h1, h2] at this
+    simp [h2]
+  have hnotfine : ¬ (l.length ≤ lim ∧ (p l = none → skipCond sn sv l = true)) := by
+    rintro ⟨_, h⟩
+    rw [hsk] at h
+    exact absurd (h hp) (by decide)
+  have hi : i < (linesOf maxTok limit b).length := by
+    rcases Nat.lt_or_ge i (linesOf maxTok limit b).length with h | h
+    · exact h
+    · rw [List.getElem?_eq_none h] at hl; cases hl
+  have hget : (linesOf maxTok limit b)[i] = l := by
+    rw [List.getElem?_eq_getElem hi] at hl; exact Option.some.inj hl
+  have hsplit : linesOf maxTok limit b =
+      (linesOf maxTok limit b).take i ++ l :: (linesOf maxTok limit b).drop (i + 1) := by
+    rw [← hget, List.getElem_cons_drop hi, List.take_append_drop]
+  constructor
+  · cases hres : (cliParseRecipientsFile p sn sv lim maxTok limit b).res with
+    | ok ks =>
+      exfalso
+      obtain ⟨_, hfine, _, _⟩ := (cli_keyfile_exact p sn sv lim maxTok limit b ks).mp hres
+      exact hnotfine (hfine l (List.mem_of_getElem? hl) hc)
+    | error e =>
+      rcases (cli_keyfile_first_error p sn sv lim maxTok limit b e).mp hres with
+        ⟨pre, l', post, hls, hpre, hc', hx⟩ | ⟨hall, _⟩
+      · refine ⟨pre, l', post, hls, ?_, hpre, hc', ?_⟩
+        · rcases Nat.lt_or_ge i pre.length with h | h
+          · exfalso
+            have hmem : l ∈ pre := by
+              have h2 : (pre ++ l' :: post)[i]? = some l := hls ▸ hl
+              rw [List.getElem?_append_left h] at h2
+              exact List.mem_of_getElem? h2
+            exact hnotfine (hpre l hmem hc)
+          · exact h
+        · rcases hx with ⟨h1, h2, h3, he⟩ | ⟨h1, he⟩
+          · exact Or.inl ⟨h1, h2, h3, by rw [he]⟩
+          · exact Or.inr ⟨h1, by rw [he]⟩
+      · exact absurd (hall l (List.mem_of_getElem? hl) hc) hnotfine
+  · intro hbefore
+    have hlen : ((linesOf maxTok limit b).take i).length = i := by
+      rw [List.length_take]; omega
+    apply (cli_keyfile_first_error p sn sv lim maxTok limit b _).mpr
+    refine Or.inl ⟨_, l, _, hsplit, hbefore, hc, ?_⟩
+    rw [hlen]
+    by_cases hle : l.length ≤ lim
+    · exact Or.inl ⟨hle, hp, hsk, by rw [if_pos hle]⟩
+    · exact Or.inr ⟨by omega, by rw [if_neg hle]⟩
 
 /-- No line is skipped silently: a delivered line that is neither empty nor a
     comment makes the parse fail, or contributes exactly its own key (at the
@@ -612,8 +666,13 @@ theorem cli_ed25519_never_skipped_nonvacuous :
     content [100, 57] = true ∧ toyParse [100, 57] = none ∧ toySniffEd [100, 57] = some sshEd25519 := by
   decide
 
+/-- … and the theorem's second part at these values: line 1 (`k1`) parses, so the
+    result is the error of line 2 itself -/
 example : (cliParseRecipientsFile toyParse toySniffEd toyValid 8 65536 (2^24)
-    [107, 49, 10, 100, 57, 10, 107, 50, 10]).res = .error (.atLine 2) := by rfl
+    [107, 49, 10, 100, 57, 10, 107, 50, 10]).res = .error (.atLine 2) :=
+  have h := cli_ed25519_never_skipped_nonvacuous
+  (cli_ed25519_never_skipped toyParse toySniffEd toyValid 8 65536 (2^24) _ 1 _ h.1 h.2.1 h.2.2.1 h.2.2.2).2
+    (by decide)
 
 /-- non-vacuity of `cli_keyfile_no_skip`: line 2 (`sv`, logged) of `toyR1`; the
     `example` below: line 4 (`k2`, the second key) -/
